@@ -59,6 +59,8 @@ FIXED = [
     (['C17'], '*/validation-messages/* (Email)', 'Email validator accepted a domain part', 'Email() accepted "user@.com" (empty first label of the domain part)'),
     (['C17'], '*/validation-messages/last-field-truncated-by-maxValidationErrors', 'maxValidationErrors cut the list of messages', 'with maxValidationErrors=N the N-th reported field carried only the message of its first failing validator (KeyValue(key, v, Required(), Range(...)) reported one of two)'),
     (['C04', 'C08'], 'xml/attribute/*', 'XML attributes were loaded into numbers without range checking', 'XML attribute values were read with pugixml as_int()/as_uint()/as_float() and static_cast: au8="300" loaded 44 into uint8_t, ai16="70000" loaded 4464, au32="-1" loaded 0, ai="99999999999999999999" loaded INT64_MAX, af="1e999" loaded infinity, all silently and ignoring both policies'),
+    (['C09'], 'writer/malformed/bare-CR-not-quoted', 'CSV writer did not quote values which contain carriage return', 'a cell containing U+000D without LF (e.g. "v\\r|") was written unquoted; a strict RFC 4180 reader (and CPython csv) sees a record break there'),
+    (['C09'], 'reader/rejected/Parsing error/mem | reader/ragged-record-accepted/more', 'CSV string reader lost the last empty value', 'memory input "h1,h2\\n1," (last field empty, no final line break) was rejected with "Number of values are different than in header", and "a;b;c\\r\\n1;2;3;" (one field too many) was accepted'),
 ]
 
 KNOWN = [
